@@ -89,6 +89,13 @@ def differential(src, passes=3, kinds=("S", "D"), strict_kinds=True):
         return {"verdict": "harness-" + host["status"].split(":")[0], "detail": host["status"]}
     if host["status"] != "ok":
         return {"verdict": "python-undefined", "detail": host["status"]}
+    # A-INT16: a script whose integers leave the device's int range is outside the comparison (Python ints are unbounded)
+    for e in host["events"]:
+        if e.startswith("S:"):
+            for m in NUM.finditer(e):
+                tok = m.group(0)
+                if "." not in tok and "e" not in tok and abs(int(tok)) > 32767:
+                    return {"verdict": "python-undefined", "detail": f"integer {tok} exceeds the 16-bit device int (A-INT16)"}
     cpp, err = transpile(src)
     if cpp is None:
         return {"verdict": "rejected", "detail": err}
